@@ -1,3 +1,4 @@
+pub mod c05;
 pub mod hist;
 
 use crate::harness::Arm;
@@ -5,6 +6,7 @@ use crate::harness::Arm;
 pub fn all_arms() -> Vec<Box<dyn Arm>> {
     let mut v: Vec<Box<dyn Arm>> = vec![];
     v.extend(hist::arms());
+    v.push(Box::new(c05::C05));
     v
 }
 
